@@ -153,7 +153,8 @@ def run_tlc(module, cfg_text, workdir, mode="check", workers=8, timeout=600, ext
     m = re.search(r"Error: Invariant (\w+) is violated", out)
     if m:
         res["violated"] = m.group(1)
-    m = re.search(r"Error: Action property (\w+) is violated|Error: Temporal properties were violated", out)
+    # (an action property that is a conjunct of a quantified formula is reported by position: "Action property line 19, col 21 to ...")
+    m = re.search(r"Error: Action property (?:(\w+)|line [^\n]*?) is violated|Error: Temporal properties were violated", out)
     if m and not res["violated"]:
         res["violated"] = m.group(1) or "temporal"
     if "Error: Deadlock reached" in out and not res["violated"]:
